@@ -1,7 +1,7 @@
 (* C06 -- Result types agree with LLVM's typing rules, in parser and IR alike. *)
 From Coq Require Import List Bool NArith ZArith String.
 From LLIR Require Import Lib.Bytes Model.Types Model.TypeString Model.ResultType Model.GoEval Gen.Printers.
-From LLIR Require Import Proofs.PrinterRefinement Proofs.ResultTypeProofs Proofs.TypeRuleRefinement.
+From LLIR Require Import Proofs.PrinterRefinement Proofs.ResultTypeProofs Proofs.TypeRuleRefinement Proofs.CExprTypeRefinement.
 Import ListNotations.
 Open Scope string_scope.
 
@@ -111,3 +111,39 @@ Theorem C06_icmp_parser_and_ir_agree_generated : forall bodies x t,
   run_new "asm.newICmpInst" (VObj "ast.ICmpInst" [("X()", ast_operand x)]) = GoEval.Ok (reify_ty t)
   /\ run_type "ir.InstICmp" [("X", operand x)] = GoEval.Ok (reify_ty t).
 Proof. exact icmp_parser_and_ir_agree_generated. Qed.
+
+(* constant expressions: the regenerated Type() methods of package constant compute the model's type for the same
+   rule shapes the instructions use -- nine binary kinds, fneg, thirteen conversions, icmp, fcmp, select,
+   extractelement, insertelement, shufflevector -- for all operand types; catchswitch yields a token *)
+Theorem C06_cexpr_binary_type_generated : forall bodies,
+  Forall (fun k => forall x y, run_ctype k [("X", operand x); ("Y", operand y)] = expect (ir_type bodies (SameAsFirst x)))
+         same_as_first_kinds.
+Proof. exact cexpr_binary_type_generated. Qed.
+Theorem C06_cexpr_conversion_type_generated : forall bodies,
+  Forall (fun k => forall f t, run_ctype k [("From", operand f); ("To", reify_ty t)] = expect (ir_type bodies (Convert f t)))
+         cexpr_conversion_kinds.
+Proof. exact cexpr_conversion_type_generated. Qed.
+Theorem C06_cexpr_icmp_type_generated : forall bodies x, run_ctype "ICmp" [("X", operand x)] = expect (ir_type bodies (ICmp x)).
+Proof. exact cexpr_icmp_type_generated. Qed.
+Theorem C06_cexpr_fcmp_type_generated : forall bodies x, run_ctype "FCmp" [("X", operand x)] = expect (ir_type bodies (FCmp x)).
+Proof. exact cexpr_fcmp_type_generated. Qed.
+Theorem C06_cexpr_select_type_generated : forall bodies c a b,
+  run_ctype "Select" [("Cond", operand c); ("X", operand a); ("Y", operand b)] = expect (ir_type bodies (SameAsFirst a)).
+Proof. exact cexpr_select_type_generated. Qed.
+Theorem C06_cexpr_extractelement_type_generated : forall bodies x i,
+  run_ctype "ExtractElement" [("X", operand x); ("Index", operand i)] = expect (ir_type bodies (ExtractElement x)).
+Proof. exact cexpr_extractelement_type_generated. Qed.
+Theorem C06_cexpr_insertelement_type_generated : forall bodies x e i,
+  run_ctype "InsertElement" [("X", operand x); ("Elem", operand e); ("Index", operand i)] = expect (ir_type bodies (InsertElement x)).
+Proof. exact cexpr_insertelement_type_generated. Qed.
+Theorem C06_cexpr_shufflevector_type_generated : forall bodies x y m,
+  run_ctype "ShuffleVector" [("X", operand x); ("Y", operand y); ("Mask", operand m)] = expect (ir_type bodies (ShuffleVector x m)).
+Proof. exact cexpr_shufflevector_type_generated. Qed.
+Theorem C06_shufflevector_expr_and_inst_agree : forall (bodies : ResultType.env) x y m,
+  run_ctype "ShuffleVector" [("X", operand x); ("Y", operand y); ("Mask", operand m)]
+  = run_type "ir.InstShuffleVector" [("X", operand x); ("Y", operand y); ("Mask", operand m)].
+Proof. exact shufflevector_expr_and_inst_agree. Qed.
+Theorem C06_catchswitch_type_generated : forall bodies, run_type "ir.TermCatchSwitch" [] = expect (ir_type bodies TokenResult).
+Proof. exact catchswitch_type_generated. Qed.
+Print Assumptions C06_cexpr_shufflevector_type_generated.
+Print Assumptions C06_cexpr_conversion_type_generated.
